@@ -54,6 +54,13 @@ TPeek == /\ IsEvent("peek")
          /\ (DecideBlock \/ DecideFee \/ SkipAir)
          /\ UNCHANGED seen
 
+\* looking again at a line that is already in the look-ahead changes nothing in the reader: an implementation may do it as
+\* often as it likes (grain of atomicity: an implementation step without a counterpart in the specification is a stuttering step)
+TPeekAgain == /\ IsEvent("peek")
+              /\ Ev.cached /\ peeked
+              /\ Ev.eof = (PeekGot = 0) /\ Ev.count = count
+              /\ UNCHANGED <<vars, seen>>
+
 TEntry == /\ IsEvent("entry")
           /\ Len(out) = seen + 1
           /\ LET r == out[Len(out)] IN
@@ -71,7 +78,7 @@ TEnd == /\ IsEvent("end")
 
 TraceInit == /\ lines = <<>> /\ pos = 0 /\ peeked = FALSE /\ count = 0 /\ pc = "ok" /\ cur = NoRec /\ out = <<>> /\ reads = 0
              /\ l = 1 /\ seen = 0
-TraceNext == TStmt \/ TRead \/ TPeek \/ TEntry \/ TEnd
+TraceNext == TStmt \/ TRead \/ TPeek \/ TPeekAgain \/ TEntry \/ TEnd
 TraceSpec == TraceInit /\ [][TraceNext]_tvars
 
 TraceAccepted ==
